@@ -23,7 +23,7 @@ ASSUMPTIONS = ['str with bytes is outside the claim (statement)', 'tuples only a
 KINDS = tuple(k for k in gen.KINDS_WIDE)
 MISSING_OK = ('float16', 'float32', 'float64', 'complex64', 'complex128', 'object', 'M8[Y]', 'M8[M]', 'M8[D]', 'M8[h]', 'M8[s]', 'M8[ns]', 'm8[D]', 'm8[s]')
 
-OPS = ('s_reindex', 's_shift', 's_concat', 's_assign_el', 's_assign_arr', 's_assign_series', 's_fillna', 's_fillna_series', 's_overlay', 's_from_items', 's_from_list',
+OPS = ('s_reindex', 's_shift', 's_concat', 's_assign_el', 's_assign_arr', 's_assign_series', 's_assign_series_partial', 'f_assign_series_partial', 's_fillna', 's_fillna_series', 's_overlay', 's_from_items', 's_from_list',
        'f_reindex', 'f_shift', 'f_concat0', 'f_concat1', 'f_assign_el', 'f_assign_arr', 'f_assign_series', 'f_assign_bloc', 'f_fillna', 'f_fillna_sided',
        'f_row', 'f_values', 'f_iter_array1', 'f_from_records', 'f_from_records_mixed', 'f_from_dict_records', 'f_from_items', 'f_insert', 'f_overlay',
        'go_setitem', 'go_extend', 'ix_append', 'ix_fillna', 'f_relabel_shift', 'f_unset_index')
@@ -149,6 +149,20 @@ def check(case):
             for q, p in enumerate(pos[::-1]):
                 exp[p] = lb[q]
             _series_cells(r, exp, op, cells)
+        elif op in ('s_assign_series_partial', 'f_assign_series_partial'):
+            # the assigned Series (kind A) covers every target label but one; the uncovered one takes fill_value (kind B)
+            if n < 2:
+                raise Discard('needs two targets')
+            covered = idx[:-1][::-1]
+            val = sf.Series(a[:len(covered)][::-1].copy(), index=covered)
+            if op == 's_assign_series_partial':
+                r = sf.Series(a, index=idx).assign.loc[idx](val, fill_value=eb)
+                _series_cells(r, la[:n - 1] + [eb], op, cells)
+            else:
+                f = sf.Frame.from_items((('x', a), ('u', b)), index=idx)
+                r = f.assign['x'](val, fill_value=eb)
+                _series_cells(r['x'], la[:n - 1] + [eb], op + '.x', cells)
+                dts.append((r['u'].dtype, b.dtype, op + ' untouched column u'))
         elif op == 's_fillna':
             r = sf.Series(a).fillna(eb)
             _series_cells(r, [eb if is_missing(x) else x for x in la], op, cells)
